@@ -16,7 +16,7 @@ From J5V.lib Require Import Outcome Strcase.
 From J5V.model Require Import Entity EntityClient.
 From J5V.gen Require EntityGen.
 From J5V.proofs Require Import StrcaseProofs EntityProofs EntityGenProofs EntityReadmeProofs EntityClientProofs
-  EntitySpec EntitySpecProofs.
+  EntitySpec EntitySpecProofs EntityAcceptProofs.
 Import ListNotations.
 Local Open Scope N_scope.
 
@@ -30,7 +30,11 @@ Local Open Scope N_scope.
 Definition C17_full_statement : Prop :=
   forall e, in_quantifier e = true -> exists cs, compile e = Ok cs /\ C17_spec e cs.
 
-(* REFUTED (the faithful model and the real compiler agree on each witness; KNOWN_FINDINGS.txt):
+(* REFUTED (the faithful model and the real compiler agree on each witness; KNOWN_FINDINGS.txt).
+   The contradicted clause is the first one: "Each entity declaration YIELDS Keys, Data, ... a query
+   service with Get, List and Events methods, ... one upsert topic per summary": each witness below
+   is a declaration inside the quantifier that the compiler REJECTS (link error `symbol ... already
+   defined`, because the expansion puts a field of its own next to the user's), so it yields nothing.
    a primary key named page or query is inside the quantifier and its expansion does not link *)
 Theorem C17_full_refuted : ~ C17_full_statement.
 Proof. exact full_refuted. Qed.
@@ -53,45 +57,70 @@ Theorem C17_event_type_refuted :
 Proof. exact event_type_refuted. Qed.
 Print Assumptions C17_event_type_refuted.
 
-(* a key named status (metadata, data) compiles and State then has two JSON properties of that
-   name; a key named event (metadata) does the same to Event *)
-Theorem C17_state_property_clash_refuted :
-  exists cs m, in_quantifier (mk_min "status") = true /\ compile (mk_min "status") = Ok cs
-    /\ has_msg cs 0 m /\ m_name m = sp_name (mk_min "status") "State"
-    /\ json_props cs m = [bs "metadata"; bs "status"; bs "data"; bs "status"]
-    /\ ~ NoDup (json_props cs m).
-Proof. exact state_property_clash_refuted. Qed.
-Print Assumptions C17_state_property_clash_refuted.
+(* an entity named Page (or Events, with eventsInGet): the entity's own property in the List (Get)
+   response has the name of the page (events) property next to it *)
+Theorem C17_entity_named_page_refuted :
+  in_quantifier page_entity = true /\ compile page_entity = Err "symbol already defined".
+Proof. exact entity_named_page_refuted. Qed.
+Print Assumptions C17_entity_named_page_refuted.
 
-Theorem C17_event_property_clash_refuted :
-  exists cs m, in_quantifier (mk_min "event") = true /\ compile (mk_min "event") = Ok cs
-    /\ has_msg cs 0 m /\ m_name m = sp_name (mk_min "event") "Event"
-    /\ json_props cs m = [bs "metadata"; bs "event"; bs "event"].
-Proof. exact event_property_clash_refuted. Qed.
-Print Assumptions C17_event_property_clash_refuted.
+(* PARTIAL (1): THE FULL STATEMENT HOLDS FOR EVERY DECLARATION WITHOUT RESERVED NAMES.
+   [reserved_free e]: no primary/shard key named page or query, no summary field named upsert, no
+   event or oneof option named type, the entity not named page (nor events when eventsInGet is set)
+   - exactly the names that make the compiler reject the declaration (the four refutations above).
+   Such a declaration in the quantifier is ACCEPTED (parser validation, walker, conversion, link
+   step) and its output satisfies every clause of the specification.  A key named metadata / data /
+   status / event, an optional array or map, statuses that differ only in case are NOT reserved:
+   they are inside the quantifier and satisfy the property (see C17_unreserved_names below). *)
+Theorem C17_full_modulo_reserved : forall e, in_quantifier e = true -> reserved_free e = true ->
+  exists cs, compile e = Ok cs /\ C17_spec e cs.
+Proof. exact full_modulo_reserved. Qed.
+Print Assumptions C17_full_modulo_reserved.
 
-(* an optional array (or map) compiles to a repeated field inside a oneof: the compiler links it,
-   protodesc.NewFiles - the first step of deriving the client API - rejects the package *)
-Theorem C17_optional_repeated_refuted :
-  exists cs, in_quantifier optional_array_sample = true /\ reserved_free optional_array_sample = true
-    /\ compile optional_array_sample = Ok cs /\ client_accepts cs = false.
-Proof. exact optional_repeated_refuted. Qed.
-Print Assumptions C17_optional_repeated_refuted.
+(* the same for a source file with several entity declarations (they share the three packages) *)
+Theorem C17_file_acceptance : forall es, file_quantifier es = true -> exists cs, compile_file es = Ok cs.
+Proof. exact file_acceptance. Qed.
+Print Assumptions C17_file_acceptance.
 
-(* PARTIAL: what holds.  For EVERY declaration the model compiles (in the quantifier or not)
-   the output satisfies the core specification; for declarations in the quantifier the path
-   parameters of Get and Events are exactly the primary and shard keys in declaration order
-   and Events = Get + "/events" (no clean-path hypothesis: path.Join's cleaning is part of the
-   proof); and when no key uses a property name of State / Event ([reserved_free]) these are
-   objects.  MISSING for the full statement: acceptance, i.e.
-   in_quantifier e -> reserved_free e -> exists cs, compile e = Ok cs
-   (on every run checked by the correspondence in both directions, not proved). *)
+Theorem C17_acceptance : forall e, in_quantifier e = true -> reserved_free e = true -> exists cs, compile e = Ok cs.
+Proof. exact acceptance. Qed.
+Print Assumptions C17_acceptance.
+
+(* names and shapes that earlier versions of this check recorded as findings and that contradict NO
+   clause of C17 (known-findings audit 2.6-2.8): they are inside the quantifier, free of reserved names,
+   and therefore covered by C17_full_modulo_reserved.  What they do to other properties' clauses
+   (C18: unique property names; C16: the client API derives without error) is stated in
+   proofs/EntitySpecProofs.v as facts about the model (state_property_names_witness,
+   status_case_in_scope), not as refutations of C17. *)
+Theorem C17_unreserved_names :
+  forallb (fun n => in_quantifier (mk_min n) && reserved_free (mk_min n))
+          ["status"; "metadata"; "data"; "event"; "keys"; "events"]%string = true
+  /\ (in_quantifier optional_array_sample = true /\ reserved_free optional_array_sample = true)
+  /\ (in_quantifier status_case_sample = true /\ reserved_free status_case_sample = true).
+Proof.
+  exact (conj property_named_keys_in_scope
+        (conj (conj (proj1 optional_array_in_scope) (proj1 (proj2 optional_array_in_scope)))
+              (conj (proj1 status_case_in_scope) (proj1 (proj2 status_case_in_scope))))).
+Qed.
+Print Assumptions C17_unreserved_names.
+
+(* PARTIAL (2): for EVERY declaration the model compiles (in the quantifier or not, reserved
+   names or not) the output satisfies the core specification; for declarations in the
+   quantifier the path parameters of Get and Events are exactly the primary and shard keys in
+   declaration order and Events = Get + "/events" (no clean-path hypothesis: path.Join's
+   cleaning is part of the proof). *)
 Theorem C17_full_partial : forall e cs, compile e = Ok cs ->
-  C17_spec_core e cs
-  /\ (in_quantifier e = true -> spec_query_paths e cs)
-  /\ (in_quantifier e = true -> reserved_free e = true -> spec_objects e cs).
+  C17_spec_core e cs /\ (in_quantifier e = true -> spec_query_paths e cs).
 Proof. exact full_partial. Qed.
 Print Assumptions C17_full_partial.
+
+(* NOT a clause of C17 (it is C18's "property names are unique within each object", seen from the
+   declaration): State / Event have pairwise distinct JSON properties - after flattening the keys -
+   whenever no key is named metadata / data / status / event *)
+Theorem C17_objects_distinct_props : forall e cs, compile e = Ok cs ->
+  in_quantifier e = true -> state_event_names_free e = true -> spec_objects e cs.
+Proof. exact objects_distinct_props. Qed.
+Print Assumptions C17_objects_distinct_props.
 
 (* what acceptance by [compile] means: at least one status (the parser's validation), the
    conversion succeeded (references resolve, no optional+required field, path parameters are
@@ -137,12 +166,13 @@ Print Assumptions C17_closed_scalars.
 (* fields_ok: no user-declared field is both optional and required/primary (buildProperty);
    *_params_ok: every ":name" part of a method path is a request field (visitServiceMethodNode) *)
 Example C17_compile_is_expand : forall e,
+  list_settings e = false ->
   (forall fl, user_refs_ok e (defined (expand_with e fl)) = true) ->
   fields_ok e = true -> query_params_ok e = true -> command_params_ok e = true -> convert e = expand e.
 Proof. exact compile_expand. Qed.
 Print Assumptions C17_compile_is_expand.
 
-Example C17_compile_errors : forall e cs, expand e = Ok cs ->
+Example C17_compile_errors : forall e cs, expand e = Ok cs -> list_settings e = false ->
   convert e = if user_refs_ok e (defined cs) then
                 if fields_ok e then
                   if query_params_ok e && command_params_ok e then Ok cs
@@ -165,6 +195,18 @@ Print Assumptions C17_query_params_ok.
 Example C17_expand_total : forall e, is_panic (expand e) = false /\ expand e <> OutOfFuel.
 Proof. exact expand_total. Qed.
 Print Assumptions C17_expand_total.
+
+(* Go panics are not hidden by the model - and the conversion has none: listRequest /
+   eventsListRequest settings in the query block (outside C17's quantifier: [in_quantifier] requires
+   list_settings e = false) are a positioned conversion error since fix 985f10a (before,
+   proto.SetExtension of a MessageOptions extension on MethodOptions panicked) *)
+Theorem C17_convert_never_panics : forall e, is_panic (convert e) = false /\ convert e <> OutOfFuel.
+Proof. exact convert_never_panics. Qed.
+Print Assumptions C17_convert_never_panics.
+
+Theorem C17_convert_list_settings : forall e, list_settings e = true -> forall cs, convert e <> Ok cs.
+Proof. exact convert_list_settings. Qed.
+Print Assumptions C17_convert_list_settings.
 
 (* 3. the same annotation everywhere: psm options and service options carry
       ToSnake(name), topics carry <package>.ToCamel(name) *)
@@ -254,6 +296,19 @@ Theorem C17_get_events_paths : forall e,
 Proof. exact get_events_paths. Qed.
 Print Assumptions C17_get_events_paths.
 
+(* the general form, for ANY base path (leading / trailing / doubled slashes are cleaned by path.Join
+   inside the proof): when no segment of the base is a ":name" or "{...}" part and the key names (and
+   their snake forms) contain no '/', the path parameters of Get and of Events are the snake names of
+   the primary and shard keys in declaration order, and Events is Get followed by /events *)
+Theorem C17_query_paths_params : forall e,
+  Forall (fun p => plain_seg p = true) (segments (query_base e)) ->
+  Forall (fun u => key_seg_ok u = true) (get_keys e) ->
+  rule_params (nth 0 (query_paths e) []) = map (fun u => to_snake (uf_name u)) (get_keys e)
+  /\ rule_params (nth 2 (query_paths e) []) = map (fun u => to_snake (uf_name u)) (get_keys e)
+  /\ nth 2 (query_paths e) [] = nth 0 (query_paths e) [] ++ bs "/events".
+Proof. exact query_paths_params. Qed.
+Print Assumptions C17_query_paths_params.
+
 (* for ordinary declarations (identifier names, package without ':', no baseUrlPath override)
    the paths are literally /<pkg>/<snake name>/q/{k}.. and .../events over the primary+shard keys *)
 Theorem C17_default_paths : forall e,
@@ -269,6 +324,17 @@ Print Assumptions C17_default_paths.
 
 (* component names are proto identifiers: ToCamel yields letters and digits only and, for an
    identifier starting with a letter, starts with a capital *)
+(* the same for every declaration in the quantifier without a baseUrlPath override: the clean-path
+   fact, the ':'-free package and the identifier keys are DERIVED from the quantifier, and the base is
+   spelled out: /<package with '/' for '.'>/<ToSnake(name)>/q *)
+Theorem C17_default_paths_quantified : forall e, e_base_url e = [] -> in_quantifier e = true ->
+  nth 0 (query_paths e) [] = query_base e ++ flat_map (fun u => 47 :: brace u) (get_keys e)
+  /\ nth 2 (query_paths e) [] =
+       query_base e ++ flat_map (fun u => 47 :: brace u) (get_keys e) ++ bs "/events"
+  /\ query_base e = [47] ++ map (fun c => if c =? 46 then 47 else c) (e_pkg e) ++ [47] ++ to_snake (e_name e) ++ bs "/q".
+Proof. exact default_paths_quantified. Qed.
+Print Assumptions C17_default_paths_quantified.
+
 Theorem C17_component_names_alnum : forall e suffix,
   forallb alnum (component_name e suffix) = true.
 Proof. exact component_names_alnum. Qed.
@@ -321,7 +387,7 @@ Print Assumptions C17_status_numbering.
 (* default status filters always name values of the status enum (after fix 705ef70) *)
 Theorem C17_default_filters_are_statuses : forall e fl f,
   default_filters e (requested_filters e) = Some fl -> In f fl ->
-  In f (map fst (status_values (status_prefix e) (e_status e))).
+  In f (map fst (entity_status_values e)).
 Proof. exact default_filters_are_enum_values. Qed.
 Print Assumptions C17_default_filters_are_statuses.
 
@@ -415,6 +481,70 @@ Proof.
 Qed.
 Print Assumptions C17_code_tables.
 
+(* the same tie, DERIVED FROM THE MODEL FUNCTION (not from tables typed into a proofs file):
+   [expand_with] on a probe declaration yields, in the order of entityNode.run, the landmark each
+   accept function defines (by its componentName literal / Sprintf format); the literal property
+   names of State / Event / the publish message / the query messages are those the accept functions
+   write; method names and base paths are the code's Sprintf formats applied; the psm parts are the
+   EntityPart constants; the implicit imports and the external references are the code's *)
+Theorem C17_code_tables_from_model :
+  landmark_names = expected_landmarks
+  /\ same_names (msg_named "FooState") (lits_of "acceptState") = true
+  /\ same_names (msg_named "FooEvent") (lits_of "acceptEvent") = true
+  /\ same_names (msg_named "FooEventMessage") (lits_of "acceptPublishTopic") = true
+  /\ svc_methods "FooQueryService" =
+       map (fun f => sprintf1 (list_ascii_of_string f) (bs "Foo")) ["%sGet"; "%sList"; "%sEvents"]%string
+  /\ (forallb (pair_in gen_implicit) implicit_imports = true /\ forallb (pair_in implicit_imports) gen_implicit = true)
+  /\ (forallb (pair_in gen_externals) (externals (expand_with sample [])) = true
+      /\ forallb (pair_in (externals (expand_with sample []))) gen_externals = true)
+  /\ (forallb (fun p => existsb (fun q => bytes_eqb (fst p) (fst q) && (snd p =? snd q)) gen_parts) model_parts = true
+      /\ forallb (fun p => existsb (fun q => bytes_eqb (fst p) (fst q) && (snd p =? snd q)) model_parts) gen_parts = true).
+Proof.
+  destruct property_names_from_model as [P1 [P2 [P3 _]]]. destruct formats_from_model as [_ [F2 _]].
+  exact (conj run_order_from_model (conj P1 (conj P2 (conj P3 (conj F2 (conj implicit_imports_agree
+        (conj model_externals_agree entity_parts_from_model))))))).
+Qed.
+Print Assumptions C17_code_tables_from_model.
+
+(* the REMAINING tables, derived from the model as well (ent3): a second probe declaration whose names tell
+   the four strcase functions apart is expanded by [expand_with]; its components are cut into one segment
+   per function of entityNode.run; then
+   - the names each segment defines / refers to are the literals that function passes to componentName /
+     innerRef (suffix_sites);
+   - every generated name is the strcase function the code calls in that function, applied to the declared
+     name, and no other function of entity.go calls strcase (strcase_calls, status literal,
+     entity_name_function);
+   - every name / path built with Sprintf is the code's format applied, the topic message / service names
+     are topic.go's formats applied, and entity.go has no further format (sprintf_formats, topic_formats);
+   - the literal property names of each function are the properties of its segment the user did not
+     declare (property_names).
+   So each regenerated table is compared with what the MODEL FUNCTION computes; the hand-typed tables of
+   C17_code_tables remain only as a second, order-sensitive drift detector. *)
+Theorem C17_segments_cover : concat (map segment (seq 0 10)) = probe2_cs.
+Proof. exact segments_cover. Qed.
+Print Assumptions C17_segments_cover.
+
+Theorem C17_suffix_sites_from_model : forallb segment_matches (seq 0 10) = true.
+Proof. exact suffix_sites_from_model. Qed.
+Print Assumptions C17_suffix_sites_from_model.
+
+Theorem C17_strcase_calls_from_model : strcase_calls_from_model_stmt.
+Proof. exact strcase_calls_from_model. Qed.
+Print Assumptions C17_strcase_calls_from_model.
+
+Theorem C17_formats_from_model : formats_from_model2_stmt.
+Proof. exact formats_from_model2. Qed.
+Print Assumptions C17_formats_from_model.
+
+Theorem C17_property_names_from_model :
+  forallb (fun i => match nth_error EntityGen.run_order i with
+                    | Some f => same_names (seg_props i) (prop_lits f)
+                    | None => false end) [3; 5; 6; 8]%nat = true
+  /\ same_strings (dedup (map fst EntityGen.property_names))
+                  (flat_map (fun i => match nth_error EntityGen.run_order i with Some f => [f] | None => [] end) [3; 5; 6; 8]%nat) = true.
+Proof. exact property_names_from_model2. Qed.
+Print Assumptions C17_property_names_from_model.
+
 (* the README's documented example (re-read from README.md on every run): the declaration it
    prints expands, in the model, to every message, field, status value, rpc and path it shows *)
 Theorem C17_readme_example : readme_agrees.
@@ -451,7 +581,7 @@ Definition C17_sample : entity :=
       [mkC None None [mkM (bs "DoIt") 2 (bs ":fooId/doit") [mkU (bs "fooId") (KKey false None None) false false] (Some []);
                       mkM (bs "Download") 1 (bs "dl") [] None]]
       [mkS [] [mkU (bs "name") (KScalar 9 (bs "string")) false false]]
-      (Some (mkQ true [bs "ACTIVE"]))
+      (Some (mkQ true [bs "ACTIVE"] false))
       [SObject (bs "Address") [mkU (bs "street") (KScalar 9 (bs "string")) false false];
        SEnum (bs "Kind") [bs "A"; bs "B"];
        SOneof (bs "Choice") [mkU (bs "a") (KScalar 9 (bs "string")) false false]].
@@ -462,7 +592,7 @@ Example C17_example :
   /\ nth 0 (query_paths C17_sample) [] = bs "/foo/v1/foo_s/q/{foo_id}/{account_id}"
   /\ nth 2 (query_paths C17_sample) [] = bs "/foo/v1/foo_s/q/{foo_id}/{account_id}/events"
   /\ path_key_names C17_sample = [bs "foo_id"; bs "account_id"]
-  /\ status_values (status_prefix C17_sample) (e_status C17_sample)
+  /\ entity_status_values C17_sample
      = [(bs "FOO_S_STATUS_UNSPECIFIED", 0); (bs "FOO_S_STATUS_ACTIVE", 1); (bs "FOO_S_STATUS_INACTIVE", 2)]
   /\ Forall (fun k => no_slash (uf_name (k_def k)) = true) (e_keys C17_sample)
   /\ upper_word (e_name C17_sample) = true /\ fields_ok C17_sample = true
